@@ -49,6 +49,16 @@ Theorem step_exit_refuted :
 Proof. exact step_exit_refuted_proof. Qed.
 Print Assumptions step_exit_refuted.
 
+(* (a) on the PINNED tree the statement holds under the precise side condition that no step boundary falls at the end
+   of a do-loop body (or would pop at the target depth) and no `exit` is single-stepped: `clean_run k p e m` checks,
+   along the trajectory, `step_clean` = the instruction executed by the step is not `exit` and, after it,
+   `end_of_step_plain` (the finished segment that single-stepping pops eagerly is not a do-loop body). *)
+Theorem run_is_iterated_step_pinned_partial : forall p e n f m mf,
+  complete n f false p e m = Ok mf ->
+  exists k, forall k', clean_run (k + k') p e m = true -> iter_step false p e (k + k') m = Ok mf.
+Proof. exact run_is_iterated_step_pinned_partial_proof. Qed.
+Print Assumptions run_is_iterated_step_pinned_partial.
+
 (* (b) step() is total on every state of every program, patched or not: it never runs out of its own fuel
    (the outcome is a new state, possibly with an error code, or an identified undefined behaviour of the C++) *)
 Theorem step_total : forall fixed p e m, api_step fixed p e m <> OutOfFuel.
@@ -107,7 +117,7 @@ Theorem wraparound_spec : forall p e m a b s, 0 < p_w p -> m_stack m = b :: a ::
   exec_builtin p e m CODE_NEGATE = continue (set_stack m (wrap w (- b) :: a :: s)) /\
   exec_builtin p e m CODE_ADD1 = continue (set_stack m (wrap w (b + 1) :: a :: s)) /\
   exec_builtin p e m CODE_SUB1 = continue (set_stack m (wrap w (b - 1) :: a :: s)) /\
-  exec_builtin p e m CODE_ABS = continue (set_stack m (wrap w (Z.abs b) :: a :: s)) /\
+  exec_builtin p e m CODE_ABS = continue (set_stack m (wrap 32 (Z.abs (wrap 32 b)) :: a :: s)) /\
   exec_builtin p e m CODE_LSHIFT = continue (set_stack m (wrap w (a * 2 ^ (b mod w)) :: s)) /\
   (forall z, - 2 ^ (w - 1) <= wrap w z < 2 ^ (w - 1) /\ (exists k, wrap w z = z + k * 2 ^ w) /\
              (- 2 ^ (w - 1) <= z < 2 ^ (w - 1) -> wrap w z = z)).
